@@ -43,6 +43,10 @@ def run(ctx, ss):
     from .c09 import c09_5
     ctx.guard("C01.8", lambda c, s: _as(c, s, c09_5, "C01.8"), ss)
     ctx.guard("C01.9", lambda c, s: _as(c, s, c05_3, "C01.9"), ss)
+    # C01.10 the reading path file -> text -> tables -> reported table remembers nothing from an earlier input (shared.py)
+    from .shared import reading_path
+    ctx.guard("C01.10", reading_path, ss, "C01.10", ["DecFileParser.list_decay_modes", "DecFileParser._find_decay_modes", "DecFileParser.list_decay_mother_names",
+                                                    "DecFileParser._decay_mode_details", "DecFileParser.print_decay_modes"], "a decay table")
     # what a table query reports depends on this parser's parsed text only: the observation functions write no parser /
     # class / module state (a cache shared between parsers would make one text's tables show up for another)
     from .c09 import no_state_effects
